@@ -2138,6 +2138,13 @@ class AV:
                 recv = self._ev(recv_node, fr)
                 if _is_str(recv):
                     return self._format(recv, args, kw)
+            if m == "difference" and len(args) == 1 and not kw:
+                # A.difference(B) keeps the elements of A that are not in B (A a comprehension / collection display)
+                recv = _unwrap_seq(self._ev(recv_node, fr))
+                while recv[0] == "call" and recv[1] in ("set", "frozenset") and len(recv[2]) == 1 and not recv[3]:
+                    recv = _unwrap_seq(recv[2][0])
+                if recv[0] == "comp" and len(recv[3]) == 1 and recv[3][0][0] not in ("spread", "when", "kv", "kadd"):
+                    return mk_comp(recv[1], recv[2], recv[3], tuple(recv[4]) + (mk_cmp("not in", recv[3][0], args[0]),))
             if m in ("items", "keys", "values") and not args:
                 recv = self._ev(recv_node, fr)
                 if recv[0] == "dict":
